@@ -64,7 +64,7 @@ NotStranded == (AtEnd /\ St.phase = "running" /\ Queued # {}) => Len(St.running)
 \* behind a gate-blocked task
 LegitBlock(i) == LET op == T.blockedop[i] IN
                  \/ op \in {"join", "joint"} /\ (St.running # <<>> \/ (St.phase # "running" /\ Queued # {}))
-                 \/ op = "stop" /\ St.running # <<>>
+                 \/ op \in {"stop", "clear"} /\ St.running # <<>>
 NoDeadlock == AtEnd => \A i \in 1..Len(T.blocked) : LegitBlock(i)
 \* C11: after a completed stop every worker thread has terminated
 AllDeadAfterStop == (AtEnd /\ St.phase = "stopped") => St.alive = <<>>
